@@ -14,21 +14,20 @@ Open Scope N_scope.
 Record env := mkEnv {
   cf : conf;
   t0 : Z;              (* clock reading at the start of the event *)
-  t1 : Z;              (* clock reading once the send-loop budget is used up *)
-  budget : N;          (* delta reads of __sendAppendEntries that still return t0 *)
+  budget : N;          (* per call of __sendAppendEntries: loop turns before the clock moves on by period+1 *)
   rnd : Z;             (* (max-min)*random.random() for every timeout drawn in this event *)
   order : list nid;    (* iteration order of otherNodes | readonlyNodes *)
   snaplen : N          (* byte length of the snapshot, if this event serializes *)
 }.
 
 (* threaded handler state *)
-Record S := mkS { nd : node; outs : list out; exc : N; tnow : Z; used : N; jmp : bool }.
-#[export] Instance eta_S : Settable _ := settable! mkS <nd; outs; exc; tnow; used; jmp>.
+Record S := mkS { nd : node; outs : list out; exc : N; tnow : Z; used : N; jmp : bool; njmp : N }.
+#[export] Instance eta_S : Settable _ := settable! mkS <nd; outs; exc; tnow; used; jmp; njmp>.
 
 Definition EXC_GENERIC := 9.
 Definition EXC_FUEL := 77.
 
-Definition start_S (e : env) (n : node) : S := mkS n [] 0 (t0 e) 0 false.
+Definition start_S (e : env) (n : node) : S := mkS n [] 0 (t0 e) 0 false 0.
 
 Definition upd (f : node -> node) (s : S) : S := s <| nd := f (nd s) |>.
 Definition emit (o : out) (s : S) : S := s <| outs := outs s ++ [o] |>.
@@ -224,17 +223,27 @@ Definition set_transmission (p : snap_part) (s : S) : S * bool :=
 
 (* __loadDumpFile; any failure is swallowed by the bare except *)
 Definition load_dump_ok (s : S) : bool :=
-  match stored (sr (nd s)) with Some (Good _) => true | _ => false end.
+  match stored (sr (nd s)) with Some (Good sn) => s_ver sn <=? self_ver (nd s) | _ => false end.
 
 Definition load_dump (e : env) (clear : bool) (s : S) : S :=
   match stored (sr (nd s)) with
   | Some (Good sn) =>
+    if self_ver (nd s) <? s_ver sn then s else
     let s := upd (fun n => n <| hist := s_hist sn |> <| enabled_ver := s_ver sn |>) s in
+    (* a journal that reaches back beyond the dump is trimmed to the dump's position *)
+    let s := if clear then s
+             else match get_entries (log (nd s)) (Some (eidx (s_e0 sn))) (Some 2) None with
+                  | [a; b] => if entry_eqb a (s_e0 sn) && entry_eqb b (s_e1 sn)
+                              then upd (fun n => n <| log := delete_to (log n) (eidx (s_e0 sn)) |>) s else s
+                  | _ => s
+                  end in
     let n := nd s in
     let keep := match log n with
                 | a :: b :: _ => entry_eqb a (s_e0 sn) && entry_eqb b (s_e1 sn)
                 | _ => false end in
-    let s := if clear || negb keep then upd (fun n => n <| log := [s_e0 sn; s_e1 sn] |>) s else s in
+    let s := if clear || negb keep
+             then upd (fun n => n <| log := [s_e0 sn; s_e1 sn] |>
+                                   <| replay_idx := N.min (replay_idx n) (eidx (s_e1 sn)) |>) s else s in
     let s := upd (fun n => n <| applied := eidx (s_e1 sn) |>) s in
     if dyn (cf e) then
       update_cluster (filter (fun x => negb (self_is x (nd s))) (s_cluster sn)) s
@@ -246,7 +255,9 @@ Definition load_dump (e : env) (clear : bool) (s : S) : S :=
 Definition delta_read (e : env) (s : S) : S :=
   let u := used s + 1 in
   let s := s <| used := u |> in
-  if (budget e <? u) && negb (jmp s) then s <| tnow := t1 e |> <| jmp := true |> else s.
+  if (budget e <? u) && negb (jmp s)
+  then s <| tnow := (tnow s + period (cf e) + 1)%Z |> <| jmp := true |> <| njmp := njmp s + 1 |>
+  else s.
 
 Definition int_size (v : N) : N := if v <? 256 then 2 else if v <? 65536 then 3 else 5.
 Definition psize (e : entry) : N := cpk (ecmd e) + int_size (eidx e) + int_size (eterm e) - 4.
@@ -320,6 +331,7 @@ Definition targets (e : env) (n : node) : list nid :=
   if is_perm (order e) u then order e else u.
 
 Definition send_ae (e : env) (s : S) : S :=
+  let s := s <| used := 0 |> <| jmp := false |> in
   let s := upd (fun n => n <| new_ae_time := (tnow s + period (cf e))%Z |>) s in
   let start := tnow s in
   let fuel := Datatypes.S (N.to_nat (budget e) + length (targets e (nd s)) + 1) in
@@ -352,7 +364,10 @@ Definition do_apply (c : cmd) (s : S) : S * apply_res :=
     if self_ver (nd s) <? ca c then (s, WrongVer)
     else (upd (fun n => n <| enabled_ver := ca c |>) s, Applied 0)
   else match membership_of c with
-  | Some (a, x) => (fst (do_change_cluster a x false s), Applied 0)
+  | Some (a, x) =>
+    if applied (nd s) <? replay_idx (nd s)
+    then (fst (do_change_cluster a x false s), Applied 0)
+    else (s, Applied 0)
   | None =>
     if ck c =? 0 then
       if cb c =? 1 then (s, RaisedUser)
@@ -635,7 +650,8 @@ Definition ae_regular (e : env) (from : nid) (c : N) (prev : option (N * N)) (ne
       let s := match existing_rest, to_add with
                | _ :: _, _ :: _ =>
                  let s := if dyn (cf e) then apply_membership true (rev existing_rest) s else s in
-                 upd (fun n => n <| log := delete_from (log n) (pidx + 1 + N.of_nat matched) |>) s
+                 upd (fun n => n <| log := delete_from (log n) (pidx + 1 + N.of_nat matched) |>
+                                  <| replay_idx := N.min (replay_idx n) (pidx + N.of_nat matched) |>) s
                | _, _ => s
                end in
       let s := upd (fun n => n <| log := log n ++ to_add |>) s in
@@ -781,4 +797,22 @@ Definition init_node (e : env) (me : option nid) (oth : list nid) (sv : N) : nod
   mkNode me oth [] [] [] FOLLOWER 0 None 0 None (t0 e + gen_timeout e)%Z
          [mkEntry (noop_cmd (noop_pk (cf e))) 1 0] 1 1
          [] [] [] (t0 e) None false None false None None [] (t0 e) 0%Z true 0%Z
-         [] 0 [] [] init_ser [] 0 sv 1 false.
+         [] 0 [] [] init_ser [] 0 sv 1 false 1.
+
+(* what survives a kill of a node with a journal file (and a dump file) *)
+Record disk := mkDisk { d_log : list entry; d_meta : N; d_dump : option blob }.
+
+Definition disk_of (c : conf) (n : node) : option disk :=
+  if file_journal c
+  then Some (mkDisk (log n) (meta_commit n) (if file_dump c then stored (sr n) else None))
+  else None.
+
+(* SyncObj.__init__ on existing files *)
+Definition init_from_disk (e : env) (me : option nid) (oth : list nid) (sv : N) (d : disk) : node :=
+  let n := init_node e me oth sv in
+  match d_log d with
+  | [] => n <| sr := (sr n) <| stored := d_dump d |> |>
+  | l => n <| log := l |> <| commit := d_meta d |> <| meta_commit := d_meta d |>
+           <| replay_idx := last_idx l |>
+           <| sr := (sr n) <| stored := d_dump d |> |>
+  end.
